@@ -569,7 +569,7 @@ func desc(v ssa.Value, depth int) string {
 		if a, ok := x.X.(*ssa.Alloc); ok {
 			ss := singleStore(a)
 			if p, isP := ss.(*ssa.Parameter); isP {
-				return desc(p, depth+1) + "." + fieldName(x.X.Type(), x.Field)
+				return joinField(desc(p, depth+1), fieldName(x.X.Type(), x.Field))
 			}
 			// a local that is a never-modified copy of (a part of) a parameter: `caller := ent.Caller`
 			if ld, isLoad := ss.(*ssa.UnOp); isLoad && ld.Op == token.MUL {
@@ -580,14 +580,14 @@ func desc(v ssa.Value, depth int) string {
 					}
 				}
 				if _, isP := rt.(*ssa.Parameter); isP {
-					return desc(ld, depth+1) + "." + fieldName(x.X.Type(), x.Field)
+					return joinField(desc(ld, depth+1), fieldName(x.X.Type(), x.Field))
 				}
 			}
-			return allocName(a) + "." + fieldName(x.X.Type(), x.Field)
+			return joinField(allocName(a), fieldName(x.X.Type(), x.Field))
 		}
-		return desc(x.X, depth+1) + "." + fieldName(x.X.Type(), x.Field)
+		return joinField(desc(x.X, depth+1), fieldName(x.X.Type(), x.Field))
 	case *ssa.Field:
-		return desc(x.X, depth+1) + "." + fieldName(x.X.Type(), x.Field)
+		return joinField(desc(x.X, depth+1), fieldName(x.X.Type(), x.Field))
 	case *ssa.IndexAddr:
 		if a, ok := x.X.(*ssa.Alloc); ok {
 			return allocName(a) + "[" + desc(x.Index, depth+1) + "]"
@@ -861,6 +861,14 @@ func singleStore(a *ssa.Alloc) ssa.Value {
 	return nil
 }
 
+// joinField: base.field - or base alone when the field is a transparent grouping (fieldTransparent).
+func joinField(base, field string) string {
+	if field == "" {
+		return base
+	}
+	return base + "." + field
+}
+
 func fieldName(t types.Type, idx int) string {
 	t = deref(t)
 	if st, ok := t.Underlying().(*types.Struct); ok && idx < st.NumFields() {
@@ -1065,6 +1073,11 @@ func FieldStoresOf(fn *ssa.Function, named *types.Named) []FieldStore {
 			}
 			if n, ok := types.Unalias(deref(fa.X.Type())).(*types.Named); ok && n.Origin() == named.Origin() {
 				out = append(out, FieldStore{fieldName(fa.X.Type(), fa.Field), st, fa, f})
+			} else if outer, isFA := fa.X.(*ssa.FieldAddr); isFA && fieldName(outer.X.Type(), outer.Field) == "" {
+				// a setting regrouped into a nested struct (a transparent grouping field of named)
+				if n, ok := types.Unalias(deref(outer.X.Type())).(*types.Named); ok && n.Origin() == named.Origin() {
+					out = append(out, FieldStore{fieldName(fa.X.Type(), fa.Field), st, fa, f})
+				}
 			}
 		})
 	}
@@ -1328,6 +1341,10 @@ func nonNegative(v ssa.Value) bool {
 // that cannot be matched keep their own name. Filled by InitFieldCanon at load time.
 var fieldCanon = map[*types.Var]string{}
 
+// fieldTransparent: a field that only groups settings the reference struct holds directly (log.callSite.skip is the
+// reference's log.callerSkip): renderings skip it.
+var fieldTransparent = map[*types.Var]bool{}
+
 func fieldTypeString(t types.Type) string {
 	return canonTypeNames(types.TypeString(t, func(p *types.Package) string { return p.Name() }))
 }
@@ -1335,6 +1352,9 @@ func fieldTypeString(t types.Type) string {
 // FN: the canonical name of a struct field (see fieldCanon).
 func FN(v *types.Var) string {
 	if v == nil {
+		return ""
+	}
+	if fieldTransparent[v.Origin()] {
 		return ""
 	}
 	if cn, ok := fieldCanon[v.Origin()]; ok {
@@ -1409,6 +1429,52 @@ func InitFieldCanon(p *Program) {
 					}
 				}
 				fieldCanon[f] = gone[k]
+			}
+		}
+		// settings regrouped into a nested struct of a type the reference does not have: a field of that struct is the
+		// reference field of the same type that is gone from the outer struct (when exactly one is)
+		cur = map[string]bool{}
+		for i := 0; i < st.NumFields(); i++ {
+			cur[FN(st.Field(i))] = true
+		}
+		for i := 0; i < st.NumFields(); i++ {
+			g := st.Field(i)
+			if refNames[g.Name()] || fieldCanon[g] != "" {
+				continue
+			}
+			gn, _ := types.Unalias(g.Type()).(*types.Named)
+			if gn == nil || gn.Obj().Pkg() == nil {
+				continue
+			}
+			gst, isStruct := gn.Underlying().(*types.Struct)
+			if !isStruct {
+				continue
+			}
+			if _, known := canonFields[gn.Obj().Pkg().Name()+"."+gn.Obj().Name()]; known {
+				continue
+			}
+			claimed := map[string]*types.Var{}
+			okAll := gst.NumFields() > 0
+			for j := 0; j < gst.NumFields(); j++ {
+				f := gst.Field(j)
+				ts := fieldTypeString(f.Type())
+				var cands []string
+				for _, r := range ref {
+					if !cur[r[0]] && r[1] == ts {
+						cands = append(cands, r[0])
+					}
+				}
+				if len(cands) != 1 || claimed[cands[0]] != nil {
+					okAll = false
+					break
+				}
+				claimed[cands[0]] = f
+			}
+			if okAll {
+				for name, f := range claimed {
+					fieldCanon[f] = name
+				}
+				fieldTransparent[g] = true
 			}
 		}
 	})
